@@ -452,6 +452,16 @@ func c04Gen(t *rapid.T) C04Case {
 				lines[j].Typ = rapid.SampledFrom([]byte{1, 2}).Draw(t, "line-stream")
 			}
 		}
+		// A long line arrives in chunks of 16 KiB, each a record of its own; the log may end with
+		// such a chunk (the container is still writing the line, or the range ends inside it).
+		if m > 0 && rapid.IntRange(0, 9).Draw(t, "chunk-of-a-long-line") == 0 {
+			at := m - 1
+			if rapid.Bool().Draw(t, "chunk-not-last") {
+				at = rapid.IntRange(0, m-1).Draw(t, "chunk-at")
+			}
+			size := 16384 + rapid.SampledFrom([]int{0, 0, 0, -1, 1}).Draw(t, "chunk-size")
+			lines[at].Msg = strings.Repeat(rapid.SampledFrom([]string{"x", "chunk "}).Draw(t, "chunk-fill"), size)[:size]
+		}
 		c.Ctrs = append(c.Ctrs, lines)
 	}
 	if n > 4 {
